@@ -233,6 +233,18 @@ int setup_routing_information(struct element *e, const cJSON *request, const cJS
 }
 
 /**
+ * Reverts setup_routing_information() for a request that could not be handed to the owner.
+ */
+void remove_routing_information(struct element *e, struct routing_request *routing_request)
+{
+	HASHTABLE_REMOVE(route_table, e->peer->routing_table, routing_request->id, NULL);
+	if (unlikely(routing_request->timer.cancel(&routing_request->timer) < 0)) {
+		log_peer_err(routing_request->requesting_peer, "Could not cancel request timer!\n");
+	}
+	cjet_timer_destroy(&routing_request->timer);
+}
+
+/**
  * @param json_rpc The complete response
  * @param response Result or error object of json_rpc, this is what is to be forwarded to the original requester
  * @param result_type Tells whether response is result or error
